@@ -25,7 +25,8 @@ META = dict(
                "decider model (local events anywhere, deliveries of any well-formed message made of announced facts). "
                "Tie: every instance's operation sequence of every explored schedule is replayed on the model inside Coq "
                "(outputs and status traces compared), the theorem's hypotheses (owner consistency of run ids, P1, P2) "
-               "are checked on every step of the implementation, and equality at quiescence is checked directly.",
+               "are checked on every step of the implementation, and equality at quiescence is checked directly - on deciders exchanging notes and on real engines replicating "
+               "through their real BoboDistributedTCP under link faults, after healing.",
     level_note="Trusted: Coq kernel; harness. Stated for non-singleton patterns, finished-run memory enabled and not "
                "overflowing, per-link FIFO delivery with re-delivery. The network is simulated at note level (serialised "
                "records); tcp.py's own behaviour is C06/C10/C15.",
